@@ -115,12 +115,13 @@ var c41docOther = map[string]string{
 
 const (
 	// confirmed on the pinned tree: 630 / 66 / 46 / 79 / 84 / 250
-	c41floorNested  = 55
-	c41floorDoc     = 40
-	c41floorGuarded = 560
-	c41floorEntry   = 70
-	c41floorOrder   = 70
-	c41floorAcq     = 220
+	c41floorCowWrites = 14 // 17 on the pinned tree
+	c41floorNested    = 55
+	c41floorDoc       = 40
+	c41floorGuarded   = 560
+	c41floorEntry     = 70
+	c41floorOrder     = 70
+	c41floorAcq       = 220
 )
 
 func c41f(t, mu string, fields ...string) []c41G {
